@@ -136,6 +136,54 @@ def pinned_sched_cases():
                 c["pct"] = [3, 200]
             out.append((c, {"targets": targets, "labels": True, "K": False, "streams": streams,
                             "strategy": strat, "abandoned": [], "pinned": "%s-ends-first" % early}))
+    # ALL WORKERS DO THE SAME STEP AT THE SAME MOMENT: four hosts whose stdout and stderr consist of one unterminated
+    # fragment each (distinct bytes, distinct lengths), everything there from the start, every wrapped call a
+    # scheduling point -- the workers reach `_flush_output` (and, in the second form, `_flush_lines` on one long line
+    # each) together, so anything they SHARE there (a static buffer, a global index) shows as one host's label in
+    # front of another host's bytes.  Fixed seeds: what these schedules catch does not depend on VERIF_SEED.
+    for form in ("tails", "long-lines"):
+        for strat, seeds in (("uniform", range(1, 11)), ("pct", range(1, 7))):
+            for seed in seeds:
+                targets = [b"ta", b"tb", b"tc", b"td"]
+                hosts, streams = [], {}
+                for i, t in enumerate(targets):
+                    if form == "tails":
+                        o_payload = t + b" stdout fragment " + bytes([65 + i]) * (9 + 7 * i)
+                        e_payload = t + b" stderr fragment " + bytes([97 + i]) * (5 + 3 * i)
+                    else:
+                        o_payload = t + b" long " + bytes([65 + i]) * (2100 + 50 * i) + b"\n" + t + b" end"
+                        e_payload = t + b" e " + bytes([97 + i]) * (2050 + 10 * i) + b"\n"
+                    hosts.append({"name": t.decode(), "out": [[0, hexs(o_payload)]], "err": [[0, hexs(e_payload)]]})
+                    streams[(i, "o")] = o_payload
+                    streams[(i, "e")] = e_payload
+                # `misc` = every other mutex is a scheduling point too (the per-buffer cbuf mutexes): the window between
+                # cbuf_read() filling a buffer and _verr() copying it contains no other wrapped call than that unlock
+                c = {"fanout": 4, "hosts": hosts, "seed": seed, "yield": "all,misc", "inline": 0, "budget": 60000,
+                     "opts": {"labels": 1, "sopt": 1, "K": 0}, "strategy": strat, "tickrate": 0}
+                if strat == "pct":
+                    c["pct"] = [2 + seed % 4, 900]
+                out.append((c, {"targets": targets, "labels": True, "K": False, "streams": streams, "strategy": strat,
+                                "abandoned": [], "pinned": "same-step-%s" % form}))
+    # a descriptor in ERROR (poll(2) says POLLERR and nothing else; the read then fails with EIO): xpoll must hand it
+    # on as XPOLLERR and the loop must call the handler for it (`revents & (XPOLLREAD|XPOLLERR)`) -- otherwise the
+    # loop spins on the descriptor for ever.  The handler prints its diagnostic, closes the descriptor, and everything
+    # read before -- the unterminated tail included -- is still relayed (C05.read_error_keeps_what_was_read).
+    for which, seed in (("out", 3), ("err", 4)):
+        targets = [b"e1", b"e2"]
+        hosts, streams = [], {}
+        for i, t in enumerate(targets):
+            o_payload = t + b" line 1\n" + t + b" out tail"
+            e_payload = t + b" err 1\n" + t + b" err tail"
+            h = {"name": t.decode(), "out": [[0, hexs(o_payload)]], "err": [[0, hexs(e_payload)]]}
+            if i == 0:
+                h[which] = h[which] + [[0, "ERR"]]
+            hosts.append(h)
+            streams[(i, "o")] = o_payload
+            streams[(i, "e")] = e_payload
+        c = {"fanout": 2, "hosts": hosts, "seed": seed, "yield": "all", "inline": 0, "budget": 20000,
+             "opts": {"labels": 1, "sopt": 1, "K": 0}, "strategy": "uniform", "tickrate": 0}
+        out.append((c, {"targets": targets, "labels": True, "K": False, "streams": streams, "strategy": "uniform",
+                        "abandoned": [0], "pinned": "pollerr-on-%s" % which}))
     return out
 
 
@@ -321,6 +369,7 @@ def loop_replay(ctx, runs, dist):
     final flushes, and ties every handler call to the read it made.)"""
     lines, index = [], []          # model input; index[k] = (run, worker) of line k, or None for `begin`
     real = {}
+    iters = []                     # (run, worker, `it ...` line for `pdshmodel relay xpoll`, reads that followed, last?)
     st = dist["sched"].setdefault("loop_replay", {"workers": 0, "reads": 0, "short_or_eagain": 0, "skipped_err": 0})
     for ri, (case, meta, res) in enumerate(runs):
         if res["crash"] is not None or res["M"] is None or res["bug"] or res["M"].get("status") != "ok":
@@ -331,12 +380,16 @@ def loop_replay(ctx, runs, dist):
         index.append(None)
         per = {}
         for _, ev in res["steps"]:
-            if len(ev) >= 2 and ev[0] in widx and ev[1] in ("read", "fputs"):
+            if len(ev) >= 2 and ev[0] in widx and ev[1] in ("read", "fputs", "poll"):
                 per.setdefault(ev[0], []).append(ev)
         for th in sorted(per):
             h = widx[th]
             eofs, ok, calls = set(), True, []
+            iters.extend(poll_iterations(ri, th, h, per[th], int(case.get("opts", {}).get("sopt", 1)),
+                                         h in meta.get("abandoned", ())))
             for ev in per[th]:
+                if ev[1] == "poll":
+                    continue
                 if ev[1] == "fputs":
                     b = unhex(ev[3]) if len(ev) > 3 else b""
                     if ev[2] == "2" and b.startswith(b"pdsh@") and h in meta.get("abandoned", ()):
@@ -380,6 +433,7 @@ def loop_replay(ctx, runs, dist):
                                  "loop is left only when both descriptors are closed)" % (
                                      th, meta["targets"][h].decode(), sorted(eofs) or "no stream"),
                                  rc if len(str(rc)) < 1300 else None)
+    judge_iterations(ctx, runs, iters, st)
     if not lines:
         return
     ans = relay.run_model(ctx, ["index", "1"], "".join(l + "\n" for l in lines))
@@ -404,6 +458,85 @@ def loop_replay(ctx, runs, dist):
                                  (calls[k][0], calls[k][1][:40]) if k < len(calls) else None,
                                  (exp[k][0], exp[k][1][:40]) if k < len(exp) else None, len(calls), len(exp)),
                              rc if len(str(rc)) < 1300 else None)
+
+
+def poll_iterations(ri, th, h, evs, sopt, abandoned):
+    """ONE ITERATION of the loop of `_rsh_thread` per poll(2) return of a worker (the real xpoll.c sits between the
+    scheduler's poll and dsh.c): what the kernel-level poll reported for the worker's two descriptors -> the model
+    (`XPoll.loopIter`: xpoll's translation, dsh.c's `revents & (XPOLLREAD|XPOLLERR)` test, -S) says WHICH handlers
+    are called and IN WHICH ORDER; observable = the descriptors of the read(2) calls up to the worker's next poll."""
+    out, cur = [], None
+    fo, fe = VFD_BASE + 2 * h, VFD_BASE + 2 * h + 1
+    for ev in evs:
+        if ev[1] == "poll":
+            if cur is not None:
+                out.append(cur)
+            cur = None
+            if len(ev) >= 4 and ev[2] == "-1":
+                # interrupted: `continue` unless the command timed out (then the loop is left: no further poll)
+                cur = [ri, th, None, [], False, ev[3]]
+                continue
+            rev = {}
+            try:
+                for w in ev[2:]:
+                    if w == "=":
+                        break
+                    fd, r = w.split(":")
+                    rev[int(fd)] = int(r)
+            except ValueError:
+                continue
+            if any(fd not in (fo, fe) for fd in rev):
+                continue
+            nrep = sum(1 for r in rev.values() if r)
+            line = "it %d 0 0 %d %d 0 0 R%d:%d,%d" % (sopt, fo if fo in rev else -1, fe if fe in rev else -1, nrep,
+                                                     rev.get(fo, 0), rev.get(fe, 0))
+            cur = [ri, th, line, [], False, None]
+        elif ev[1] == "read" and cur is not None:
+            fd = int(ev[2])
+            c = "o" if fd == fo else "e" if fd == fe else "?"
+            if not cur[3] or cur[3][-1] != c:      # one handler call = one read(2), or two on the same descriptor when
+                cur[3].append(c)                   # the free space of the ring wraps (cbuf_writer's two segments)
+    if cur is not None:
+        cur[4] = True                  # the worker's last poll: it may have been given up on right after it
+        out.append(cur)
+    return [c + [abandoned] for c in out]
+
+
+def judge_iterations(ctx, runs, iters, st):
+    todo = [c for c in iters if c[2] is not None]
+    st["poll_returns"] = st.get("poll_returns", 0) + len(todo)
+    st["poll_eintr"] = st.get("poll_eintr", 0) + sum(1 for c in iters if c[2] is None)
+    bad = None
+    if todo:
+        ans = relay.run_model(ctx, ["xpoll"], "".join(c[2] + "\n" for c in todo))
+        # the ORDER of the two handler calls of one iteration is the code's choice (the properties hold for both:
+        # C05.one_iteration_stdout_before_stderr / _swapped_stderr_first): learnt from the first poll return of the
+        # run that reports both descriptors, then required of every other one (`XPoll.Iter.calls errFirst`)
+        if "handler_order" not in st:
+            for c, a in zip(todo, ans):
+                if a.split()[1:2] == ["oe"] and "".join(c[3]) in ("oe", "eo"):
+                    st["handler_order"] = "".join(c[3])
+                    break
+        if st.get("handler_order") == "eo":
+            ans = relay.run_model(ctx, ["xpoll"], "".join(c[2] + " 1\n" for c in todo))
+        for c, a in zip(todo, ans):
+            w = a.split()
+            exp = "" if len(w) < 2 or w[1] == "-" else w[1]
+            got = "".join(c[3])
+            st["poll_both_reported"] = st.get("poll_both_reported", 0) + (len(exp) == 2)
+            if got == exp or (c[4] and c[6] and exp.startswith(got)):
+                continue
+            bad = bad or (c, "after the poll return `%s` the worker read %s, the model (XPoll.loopIter: %s) calls the "
+                             "handlers %s" % (c[2], list(got) or "nothing", a, list(exp) or "of nothing"))
+    for c in iters:
+        if c[2] is None and c[3] and not bad:
+            bad = (c, "after an interrupted poll (-1 %s) the worker read %s before polling again" % (c[5], c[3]))
+    if bad:
+        c, what = bad
+        case, meta, res = runs[c[0]]
+        rc = replay_form(case, meta, res)
+        ctx.disagreement("one iteration of the poll loop of _rsh_thread (xpoll.c + handler dispatch) vs the model",
+                         "worker %s: %s" % (c[1], what), rc if len(str(rc)) < 1300 else None)
 
 
 def replay_form(case, meta, res):
